@@ -66,6 +66,12 @@ VALUES = st.one_of(
     st.tuples(st.just("complex"), st.sampled_from([[0, 1], [0, 2], [1, 0]])).map(list),
     st.tuples(st.just("obj"), st.integers(0, 2)).map(list),
     st.tuples(st.just("eqhash"), st.integers(0, 2)).map(list),
+    # values each comparable with itself but not necessarily with another value of the same type
+    st.tuples(st.just("dt"), st.sampled_from(["naive", "aware"]), st.integers(1, 3)).map(list),
+    st.tuples(st.just("mtuple"), st.lists(st.one_of(
+        st.tuples(st.just("int"), st.integers(0, 2)).map(list),
+        st.tuples(st.just("str"), st.sampled_from(["m", "b"])).map(list),
+        st.just(["none"])), min_size=1, max_size=2)).map(list),
 )
 
 
@@ -91,6 +97,11 @@ def materialize(v, pool):
         return complex(*v[1])
     if k == "obj":
         return pool.setdefault(("obj", v[1]), object())
+    if k == "dt":
+        import datetime as dt
+        return dt.datetime(2020, 1, v[2], tzinfo=dt.timezone.utc if v[1] == "aware" else None)
+    if k == "mtuple":
+        return tuple(materialize(x, pool) for x in v[1])
     return EqHash(v[1])
 
 
@@ -118,6 +129,14 @@ def cases(draw):
                 ops.append(["total", section, si, amt])
                 if draw(st.sampled_from([True, False, False])):
                     ops.append(["render"])
+        if section == "run" and draw(st.integers(0, 9)) == 0:
+            # a scope with more failures (or completions) than any bounded buffer of the display holds
+            si = draw(st.integers(0, len(scopes) - 1))
+            n = draw(st.integers(120, 140))
+            ops.append(["total", section, si, n])
+            ops.append(["burst", section, si, n, draw(st.sampled_from(["failed", "failed", "completed"]))])
+            if draw(st.booleans()):
+                ops.append(["render"])
         remaining = dict(totals)
         running = collections.Counter()
         stop_early = draw(st.sampled_from([False, False, True]))
@@ -186,6 +205,10 @@ class Model:
             return
         if k == "render":
             return
+        if k == "burst":
+            s = self.state.setdefault((op[1], self.scopes[op[2]]), [0, 0, 0, 0])
+            s[0 if op[4] == "completed" else 1] += op[3]
+            return
         key = (op[1], self.scopes[op[2]])  # equal scope tuples are one scope (e.g. (True,) == (1,))
         s = self.state.setdefault(key, [0, 0, 0, 0])
         if k == "total":
@@ -218,7 +241,7 @@ def make_observer(kind, intervals, sink):
 
 def unorderable(scopes):
     """Two scopes whose first differing position holds same-type values without an ordering, or mixed types."""
-    kinds_unord = {"complex", "obj", "eqhash"}
+    kinds_unord = {"complex", "obj", "eqhash", "dt", "mtuple"}
     mixed = False
     unord = False
     for i, a in enumerate(scopes):
@@ -245,7 +268,7 @@ def check_case(ctx, case, record=True):
     if record:
         ctx.case(case, len(scopes) >= 2 and (unord or mixed) and renders_between,
                  [f"observer:{case['observer']}", f"driver:{case['driver']}"] + (["unorderable"] if unord else [])
-                 + (["mixed_types"] if mixed else []))
+                 + (["mixed_types"] if mixed else []) + (["burst>=120"] if any(op[0] == "burst" for op in case["ops"]) else []))
     clock = detsched.FakeTime(1000.0)
     sink = []
     model = Model(scopes)
@@ -265,6 +288,14 @@ def check_case(ctx, case, record=True):
                     obs._output(out)
             else:
                 detsched.pause()
+        elif k == "burst":
+            scope = scopes[op[2]]
+            for j in range(op[3]):
+                obs.increment_running(section=op[1], scope=scope)
+                if op[4] == "completed":
+                    obs.increment_completed(section=op[1], scope=scope)
+                else:
+                    obs.increment_failed(section=op[1], scope=scope, exception=ValueError(f"failure {j}"))
         else:
             scope = scopes[op[2]]
             if k == "total":
